@@ -178,10 +178,11 @@ func VerifC09_Unjail() {
 	tm.apply(keeper.EndBlocker(e.Ctx, e.K))
 	e.Advance(time.Second, 1)
 	tomb := zz.Choice("tombstoned", 2) == 1
-	until := zz.Int64("jailed_until_offset_s", -5, 5)
+	// jailed-until relative to the block time: whole seconds and sub-second amounts either side
+	until := zz.Int64("jailed_until_offset_ns", -5000000000, 5000000000)
 	if info, ok := e.SigningInfo(0); ok {
 		info.Tombstoned = tomb
-		info.JailedUntil = e.Ctx.BlockHeader().Time.Add(time.Duration(until) * time.Second)
+		info.JailedUntil = e.Ctx.BlockHeader().Time.Add(time.Duration(until))
 		e.SetSigningInfo(0, info)
 	}
 	// optionally raise the minimum stake above the validator's stake
@@ -321,4 +322,62 @@ func vAddrLess(e *keeper.VEnv, pk1, pk2 []byte) bool {
 		}
 	}
 	return bytes.Compare(a1, a2) < 0
+}
+
+// vC05Op: one staking-state change on validator i through the real handlers / keeper.
+func vC05Op(e *keeper.VEnv, h sdk.Handler, tag string) {
+	i := zz.Choice(tag+".val", 2)
+	switch zz.Choice(tag+".op", 8) {
+	case 0: // the third key stakes (or, staked already, tries again)
+		h(e.Ctx, types.MsgStake{PubKey: e.Pubs[2], Value: sdk.NewInt(int64(1+zz.Choice(tag+".stake2", 3)) * 1500000)})
+	case 1:
+		h(e.Ctx, types.MsgBeginUnstake{Address: e.Addrs[i]})
+	case 2:
+		if v, ok := e.Val(i); ok && !v.Jailed {
+			e.K.JailValidator(e.Ctx, e.Addrs[i])
+		}
+	case 3:
+		h(e.Ctx, types.MsgUnjail{ValidatorAddr: e.Addrs[i]})
+	case 4:
+		if _, ok := e.Val(i); ok {
+			_ = e.Slash(i, int64(zz.Choice(tag+".power", 4)), sdk.NewDecWithPrec(5, 1))
+		}
+	case 5:
+		if v, ok := e.Val(i); ok && v.Status != sdk.Unstaked {
+			_ = e.K.ForceValidatorUnstake(e.Ctx, v)
+		}
+	case 6: // the unstaking time passes
+		e.Advance(e.K.UnStakingTime(e.Ctx), 1)
+	case 7: // the validator stakes more
+		if v, ok := e.Val(i); ok {
+			h(e.Ctx, types.MsgStake{PubKey: v.PublicKey, Value: sdk.NewInt(1000000)})
+		}
+	}
+}
+
+// VerifC05_History: two staking-state changes on either of two validators (plus a third key that may join), an
+// EndBlock after each: every batch applies to the model of Tendermint's set and leaves it equal to the
+// top-MaxValidators staked, unjailed validators.
+func VerifC05_History() {
+	e := keeper.VNewEnv(3)
+	for i := 0; i < 3; i++ {
+		e.Fund(e.Addrs[i], sdk.NewInt(1<<41))
+	}
+	// equal, adjacent or distant powers
+	e.Stake(0, sdk.NewInt(3000000))
+	e.Stake(1, sdk.NewInt([]int64{2000000, 3000000, 3999999, 4000000}[zz.Choice("stake1", 4)]))
+	vSetMaxValidators(e, uint64(1+zz.Choice("maxvals", 3)))
+	tm := &vTMSet{}
+	vEndBlock(e, tm, "C05.history.genesis")
+	h := NewHandler(e.K)
+	steps := 2
+	if zz.Thorough() {
+		steps = 3
+	}
+	for s := 0; s < steps; s++ {
+		vC05Op(e, h, []string{"s1", "s2", "s3"}[s])
+		vEndBlock(e, tm, "C05.history.after-op")
+	}
+	vEndBlock(e, tm, "C05.history.idle")
+	zz.Reach("C05.history")
 }
